@@ -36,6 +36,9 @@ func runC14(c *Ctx) {
 		return
 	}
 	info := pk.TypesInfo
+	// derived sets are maintained by SetArithmetic: its Add/Subtract route the two element sets of a
+	// mutation to the right collectors, with the caller's threshold (the rule group of C11)
+	checkSetArithmetic(r, p)
 
 	// (0) derived values unsubscribe from their sources and then take back what those sources
 	// contributed: that is only right if unsubscribe orders after a delivery in flight - the callback
